@@ -44,6 +44,7 @@ type PoolOp struct {
 	N    int    `json:"n,omitempty"`
 	Ms   int64  `json:"ms,omitempty"`
 	ID   int    `json:"id"`
+	Q    bool   `json:"q,omitempty"` // tx from a peer: wanted and marked pending now, taken from the queue by the main thread only after the next operation
 }
 
 type PoolH struct{}
@@ -99,7 +100,14 @@ func (PoolH) Gen(prop string, seed uint64, tier string) *hx.Case {
 	for i := 0; i < n; i++ {
 		switch r.Pick(62, 14, 5, 8, 4, 4, 3) {
 		case 0:
-			add(PoolOp{Op: "tx", Kind: txKinds[r.Intn(len(txKinds))]})
+			if r.Chance(0.06) {
+				// a peer relays a transaction of the tip block (all of its outputs already spent there) while the
+				// main thread is about to disconnect that block
+				add(PoolOp{Op: "tx", Kind: "mined-resend", Q: true})
+				add(PoolOp{Op: "undo", N: 1})
+				break
+			}
+			add(PoolOp{Op: "tx", Kind: txKinds[r.Intn(len(txKinds))], Q: r.Chance(0.12)})
 		case 1:
 			add(PoolOp{Op: "mine", Kind: []string{"pool", "pool", "pool", "mix", "empty", "other"}[r.Intn(6)], N: r.Range(1, 40)})
 		case 2:
@@ -136,6 +144,8 @@ type poolRun struct {
 	mined   map[[32]byte]bool       // txids on the active chain (maintained from the model tip)
 	tipNode *ledger.Node
 	forkCnt uint32
+	qNext   bool      // submit() queues instead of handling
+	queue   []*btc.Tx // wanted, pending, not yet handled by the main thread
 }
 
 func (p *poolRun) viol(class, format string, a ...any) {
@@ -204,6 +214,11 @@ func (p *poolRun) submit(t *ledger.Tx, path string) bool {
 		})
 		if !accepted {
 			p.out.Probe("tx_not_wanted", 1)
+			return false
+		}
+		if p.qNext && path != "trusted" {
+			p.queue = append(p.queue, tx)
+			p.out.Probe("tx_queued_behind_next_operation", 1)
 			return false
 		}
 		ok = txpool.HandleNetTx(&txpool.TxRcvd{Tx: tx, FromCID: 1, Trusted: path == "trusted"})
@@ -448,6 +463,29 @@ func (p *poolRun) doTx(o *PoolOp) {
 		c := cands[r.Intn(len(cands))]
 		t := p.m.MakeTx(height, []ledger.CoinRef{c}, 1, feeFor(c.Coin.Value), -1, ledger.COk)
 		p.submit(t, "peer")
+	case "mined-resend":
+		if p.model.Blk == nil || len(p.model.Blk.Txs) < 2 {
+			return
+		}
+		u := p.model.UTXO()
+		var cands, spent []*ledger.Tx
+		for _, t := range p.model.Blk.Txs[1:] {
+			cands = append(cands, t)
+			gone := true
+			for i := range t.Out {
+				if _, ok := u[ledger.OutPoint{Hash: t.ID(), N: uint32(i)}]; ok {
+					gone = false
+				}
+			}
+			if gone {
+				spent = append(spent, t)
+			}
+		}
+		if len(spent) > 0 {
+			cands = spent
+			p.out.Probe("resend_of_fully_spent_tip_transaction", 1)
+		}
+		p.submit(cands[r.Intn(len(cands))], "peer")
 	case "dup":
 		var ids [][32]byte
 		for id := range p.made {
@@ -947,9 +985,16 @@ func (PoolH) Run(t *testing.T, c *hx.Case) *hx.Outcome {
 				break
 			}
 			when := fmt.Sprintf("after op#%d %s %s", o.ID, o.Op, o.Kind)
+			queued := p.queue
+			p.queue = nil
+			if len(queued) > 0 {
+				when += fmt.Sprintf(" and the handling of %d transaction(s) queued before it", len(queued))
+			}
 			switch o.Op {
 			case "tx":
+				p.qNext = o.Q
 				p.doTx(o)
+				p.qNext = false
 			case "rbfstorm":
 				p.rbfStorm(o)
 			case "mine":
@@ -991,6 +1036,12 @@ func (PoolH) Run(t *testing.T, c *hx.Case) *hx.Outcome {
 					p.viol("pool.save-load", "%s: MempoolLoad()=%v; pool before saving %v, after reloading %v", when, ok, before, after)
 				}
 				out.Probe("save_load", 1)
+			}
+			for _, tx := range queued {
+				if txpool.HandleNetTx(&txpool.TxRcvd{Tx: tx, FromCID: 1}) {
+					out.Probe("tx_accepted", 1)
+					out.Probe("queued_tx_accepted", 1)
+				}
 			}
 			if big := txpool.TransactionsToSendSize; big > 9_000_000 {
 				out.Probe("pool_above_9MB", 1)
